@@ -10,6 +10,18 @@ NOT_APPLICABLE = {
 
 # id -> (engine, level category, level text, level note, technique, design_ref)
 CHECKS = {
+    "C16": ("StepExec+DES", "exploration",
+            "Two-phase simulation: under StepExec the real AddressBook (SQLite), a harness probe manager actor and the real Gossip hand out one GossipHandle through the slow path; under DES the real EphemeralStreamPublisher / EphemeralStreamSubscription run over it while the harness plays the overlay: reorder, duplicate, burst beyond the broadcast capacity (Lagged), bit flips, re-signing by another key under the original author, replaced author / body / timestamp, wrong version, undecodable frames, outsider republish; the wall-clock seam freezes and jumps back / forward between publishes. Every published frame must verify for its publisher with strictly increasing (timestamp, logical) and be byte-distinct; every yielded message must be exactly the authentic frame that poll consumed; invalid frames are never yielded.",
+            "Needs hooks H4 and H3b. The overlay (iroh-gossip) is the harness; the publisher's OperationForge is built over a lazily connecting pool (only its signing key is used on this path).",
+            "deterministic simulation with fault injection: Byzantine overlay and clock faults on the ephemeral stream", "§4 C16"),
+    "C17": ("StepExec+DES", "exploration",
+            "Same world as C16: a fault phase delivers invalid frames and bursts that lag the broadcast channel, then faults stop; the consumer awaits next() and is polled only when its own waker fires; every valid frame still queued must be yielded within 60 simulated seconds.",
+            "Needs hooks H4 and H3b. tokio::time::timeout is deliberately not used around next() (its deadline re-poll would mask a missing waker).",
+            "deterministic simulation with fault injection: liveness after faults stop, waker-driven polling", "§4 C17"),
+    "C29": ("StepExec", "exploration",
+            "StepExec over the real Gossip API object, the real AddressBook (SQLite, slow path of Gossip::stream) and a harness probe manager actor that logs Subscribe / Unsubscribe in mailbox order and owns the channels: 2-4 activities do stream / subscribe / clone / drop on 1-2 topics in seeded order; the H4 yield point parks a caller between has_subscriptions() and guard.clone() so that another activity can drop the last handle inside the window; Subscribe replies can be held back. After every step: live handles imply the topic's last logged event is Subscribe and a marker published through each new handle arrives in that session; never two Subscribes in a row; no live handle at quiescence implies Unsubscribe last; every stream() call returns.",
+            "Needs hook H4. Parks on Gossip's RwLocks are classified exactly by a wrapper around each call; the overlay itself (iroh-gossip) is not run.",
+            "deterministic simulation: seeded interleavings of handle lifecycle operations with a preemption point inside the check/clone window", "§4 C29"),
     "C02": ("StepExec", "exploration",
             "Relay simulation A -> B -> C with the hasher-seed seam as the controlled nondeterminism: A signs headers with every extension kind (unit, derived struct, Node basic, Node causal with 0-8 `previous` hashes via a CBOR-identical mirror type) and boundary-width values; the header travels as LogSyncMessage::Operation bytes to B, is decoded into fresh values (fresh hasher keys), inserted into and read back from a real in-memory SqliteStore (which re-encodes it), and forwarded to C; in the faulty mode every decode is repeated and the whole relay is re-executed on a second thread with different hasher keys. At every hop decode(bytes) == header, header.to_bytes() == bytes, hash() equals the id A assigned, verify() holds, stored bytes equal signed bytes, and both executions' wire transcripts are byte-identical.",
             "Weakest fit of the family (close to a pure function); claimed because its failure mode is an uncontrolled nondeterminism source (HashSet iteration order) which the getrandom seam makes replayable and which shows up as a replication failure two hops away. The LogSync session loop itself is not run here (C19 does).",
